@@ -40,9 +40,21 @@ spec fn atyp_code(t: Socks5AddressType) -> u8 { match t { Socks5AddressType::Ipv
 
 //@@ octo-squirrel/src/protocol/address.rs:9-13  enum Address  sha=d701f69e752e0952
 #[derive(PartialEq, Eq, Clone)]
-enum Address {
+pub enum Address {
     Domain(String, u16),
     Socket(SocketAddr),
+}
+
+impl vstd::std_specs::convert::FromSpecImpl<SocketAddr> for Address {
+    open spec fn obeys_from_spec() -> bool { false }
+    open spec fn from_spec(v: SocketAddr) -> Self { arbitrary() }
+}
+impl From<SocketAddr> for Address {
+    fn from(value: SocketAddr) -> (r: Self)
+        ensures r == Address::Socket(value),
+    {
+        Address::Socket(value)
+    }
 }
 
 //@@ octo-squirrel/src/protocol/socks5.rs:9-9  const VERSION  sha=31c82d410f6df766
@@ -50,7 +62,7 @@ const VERSION: u8 = 5;
 
 //@@ octo-squirrel/src/protocol/socks5.rs:11-15  enum Socks5CommandStatus  sha=a67902fd29d73d0f
 #[derive(PartialEq, Eq, Clone, Copy)]
-enum Socks5CommandStatus {
+pub enum Socks5CommandStatus {
     Success,
     Failure,
 }
@@ -74,7 +86,7 @@ impl TryFrom<u8> for Socks5CommandStatus {
 
 //@@ octo-squirrel/src/protocol/socks5.rs:31-36  enum Socks5AddressType  sha=6571f459743d9f1b
 #[derive(PartialEq, Eq, Clone, Copy)]
-enum Socks5AddressType {
+pub enum Socks5AddressType {
     Ipv4 = 1,
     Domain = 3,
     Ipv6 = 4,
@@ -103,7 +115,7 @@ impl TryFrom<u8> for Socks5AddressType {
 
 //@@ octo-squirrel/src/protocol/socks5.rs:54-59  enum Socks5CommandType  sha=dc476d448b8347ac
 #[derive(PartialEq, Copy, Clone)]
-enum Socks5CommandType {
+pub enum Socks5CommandType {
     Connect = 1,
     Bind = 2,
     UdpAssociate = 3,
@@ -128,7 +140,7 @@ impl Socks5CommandType {
 
 //@@ octo-squirrel/src/protocol/socks5.rs:75-81  enum Socks5AuthMethod  sha=6d6099cb2a681b28
 #[derive(PartialEq, Eq, Clone, Copy)]
-enum Socks5AuthMethod {
+pub enum Socks5AuthMethod {
     NoAuth,
     Gssapi,
     Password,
@@ -266,7 +278,7 @@ fn address__try_decode_at(src: &BytesMut, at: usize) -> (r: Result<usize>)
 }
 
 //@@ octo-squirrel/src/protocol/socks5/message.rs:15-17  struct Socks5InitialRequest  sha=1f38e54f5ce6f2db
-struct Socks5InitialRequest {
+pub struct Socks5InitialRequest {
     auth_methods: Vec<Socks5AuthMethod>,
 }
 
@@ -289,8 +301,8 @@ impl Socks5InitialRequest {
 }
 
 //@@ octo-squirrel/src/protocol/socks5/message.rs:34-36  struct Socks5InitialResponse  sha=a0c0c6134306fe8c
-struct Socks5InitialResponse {
-    auth_method: Socks5AuthMethod,
+pub struct Socks5InitialResponse {
+    pub auth_method: Socks5AuthMethod,
 }
 
 //@@ octo-squirrel/src/protocol/socks5/message.rs:38-42  impl Socks5InitialResponse  sha=7a6280ab6a32c0a3
@@ -310,9 +322,9 @@ impl Socks5InitialResponse {
 
 //@@ octo-squirrel/src/protocol/socks5/message.rs:51-55  struct Socks5CommandRequest  sha=130272c42a34f604
 #[derive(PartialEq, Clone)]
-struct Socks5CommandRequest {
-    command_type: Socks5CommandType,
-    dst_addr: Address,
+pub struct Socks5CommandRequest {
+    pub command_type: Socks5CommandType,
+    pub dst_addr: Address,
 }
 
 //@@ octo-squirrel/src/protocol/socks5/message.rs:57-61  impl Socks5CommandRequest  sha=1349fbb1a81b1852
@@ -341,9 +353,9 @@ impl Socks5CommandRequest {
 }
 
 //@@ octo-squirrel/src/protocol/socks5/message.rs:72-75  struct Socks5CommandResponse  sha=1824c387399e2856
-struct Socks5CommandResponse {
-    command_status: Socks5CommandStatus,
-    bnd_addr: Address,
+pub struct Socks5CommandResponse {
+    pub command_status: Socks5CommandStatus,
+    pub bnd_addr: Address,
 }
 
 //@@ octo-squirrel/src/protocol/socks5/message.rs:77-84  impl Socks5Message for Socks5CommandResponse  sha=ebab27fe779588e9
@@ -372,7 +384,7 @@ impl Socks5CommandResponse {
 }
 
 //@@ octo-squirrel/src/protocol/socks5/codec.rs:42-42  struct Socks5InitialRequestDecoder  sha=afb7b11cbafe5eb2
-struct Socks5InitialRequestDecoder;
+pub struct Socks5InitialRequestDecoder;
 
 //@@ octo-squirrel/src/protocol/socks5/codec.rs:44-64  impl Decoder for Socks5InitialRequestDecoder  sha=728eea90ebc48856
 impl Socks5InitialRequestDecoder {
@@ -408,7 +420,7 @@ impl Socks5InitialRequestDecoder {
 }
 
 //@@ octo-squirrel/src/protocol/socks5/codec.rs:66-66  struct Socks5CommandRequestDecoder  sha=d53c7fcfd58b0c29
-struct Socks5CommandRequestDecoder;
+pub struct Socks5CommandRequestDecoder;
 
 //@@ octo-squirrel/src/protocol/socks5/codec.rs:68-86  impl Decoder for Socks5CommandRequestDecoder  sha=0cf4f3ed562e5442
 impl Socks5CommandRequestDecoder {
@@ -439,7 +451,7 @@ impl Socks5CommandRequestDecoder {
 }
 
 //@@ octo-squirrel/src/protocol/socks5/codec.rs:88-88  struct Socks5InitialResponseDecoder  sha=c052d73bb6a96e4f
-struct Socks5InitialResponseDecoder;
+pub struct Socks5InitialResponseDecoder;
 
 //@@ octo-squirrel/src/protocol/socks5/codec.rs:90-105  impl Decoder for Socks5InitialResponseDecoder  sha=11560866b116d94f
 impl Socks5InitialResponseDecoder {
@@ -466,7 +478,7 @@ impl Socks5InitialResponseDecoder {
 }
 
 //@@ octo-squirrel/src/protocol/socks5/codec.rs:107-107  struct Socks5CommandResponseDecoder  sha=70bbae6b1f6a9f5e
-struct Socks5CommandResponseDecoder;
+pub struct Socks5CommandResponseDecoder;
 
 //@@ octo-squirrel/src/protocol/socks5/codec.rs:109-127  impl Decoder for Socks5CommandResponseDecoder  sha=856e5fee1ca728c7
 impl Socks5CommandResponseDecoder {
@@ -496,7 +508,7 @@ impl Socks5CommandResponseDecoder {
 }
 
 //@@ octo-squirrel/src/protocol/socks5/codec.rs:129-129  struct Socks5UdpCodec  sha=0d7428243bf68631
-struct Socks5UdpCodec;
+pub struct Socks5UdpCodec;
 
 //@@ octo-squirrel/src/protocol/socks5/codec.rs:131-150  impl Decoder for Socks5UdpCodec  sha=d32cc3de6bd24cdb
 impl Socks5UdpCodec {
